@@ -573,6 +573,7 @@ def run(ctx):
                  ('R-BEPAIR', 'begin/end header fields and roll-over statements pair slots consistently'),
                  ('R-EDGECELLS', 'edge -> cell-count table agrees between boundary writer and reader'),
                  ('R-VARORDER', 'cloud/rain variable order agrees between writer and reader'),
+                 ('R-CENTURY', 'two-digit years get their century back per element (files may cross 1999/2000)'),
                  ('R-INPLACEALIAS', 'writers never update in place an array that aliases one still to be written'),
                  ('R-CONVERT', 'writers convert input data with astype, never reinterpret it with a dtype view'),
                  ('R-API', 'writers and readers use only numpy APIs that exist')):
@@ -582,6 +583,26 @@ def run(ctx):
         wm, wfn, rm = check_format(ctx, fmt, cls)
         nb += check_bepair(ctx, fmt, wm, wfn)
     ctx.floor('begin/end slot stores', nb, 12)
+    # ---- R-CENTURY: the two-digit years written by the writers get their century back per element
+    from .. import lints as _l
+    ncent = 0
+    for rp_ in ('ArrayTransforms.py', 'camxfiles/ArrayTransforms.py'):
+        m_ = ctx.src.mod(rp_)
+        if not m_.has_func('ConvertCAMxTime'):
+            continue
+        f_ = m_.func('ConvertCAMxTime')
+        ncent += 1
+        hits = _l.collapsed_elementwise_choice(f_)
+        for st, x, red in hits:
+            ctx.violation(Finding('R-CENTURY', rp_, 'ConvertCAMxTime', st, 'the century added to the two-digit-year dates in %s is chosen once for the whole array from %s: '
+                                  'a file whose steps cross 1999/2000 (or 2069/1970) reads back with every date in one century (99365 -> 2099365)' % (x, norm(st.test)[:40])))
+        if not hits:
+            if any(isinstance(c, ast.Call) and (dotted(c.func) or '').split('.')[-1] == 'where' for c in ast.walk(f_)) or \
+                    any(isinstance(n, ast.Subscript) and isinstance(n.slice, ast.Compare) for n in ast.walk(f_)):
+                ctx.ok('R-CENTURY', rp_, 'src/PseudoNetCDF/%s ConvertCAMxTime' % rp_, 'century chosen per element')
+            else:
+                ctx.undec('R-CENTURY', rp_, 'src/PseudoNetCDF/%s ConvertCAMxTime' % rp_, 'century restoration not in a recognised elementwise form')
+    ctx.floor('ConvertCAMxTime definitions', ncent, 1)
     check_edgecells(ctx)
     check_varorder(ctx)
     check_landuse(ctx)
